@@ -11,9 +11,9 @@ package main
 
 import (
 	"fmt"
-	"strconv"
 	"go/types"
 	"sort"
+	"strconv"
 	"strings"
 
 	"golang.org/x/tools/go/ssa"
